@@ -326,7 +326,10 @@ def _pickle_array_annotation(x: type["AbstractArray"]):
     if x is AbstractArray:
         return _return_abstractarray, ()
     else:
-        return x.dtype.__getitem__, ((x.array_type, x.dim_str),)
+        # Replay the original subscription. (In particular for nested annotations, for
+        # which `x.array_type`, `x.dim_str` and `x.dtypes` have been merged with those of
+        # the inner annotation, so that they cannot be recovered from `x.dtype` alone.)
+        return x.dtype.__getitem__, (x._getitem_args,)
 
 
 copyreg.pickle(_MetaAbstractArray, _pickle_array_annotation)
@@ -597,6 +600,7 @@ def _make_array_cached(array_type, dim_str, dtypes, name):
 
 
 def _make_array(x, dim_str, dtype):
+    orig_dim_str = dim_str
     out = _make_array_cached(x, dim_str, dtype.dtypes, dtype.__name__)
 
     if type(out) is tuple:
@@ -609,6 +613,7 @@ def _make_array(x, dim_str, dtype):
                 dtype=dtype,
                 array_type=array_type,
                 dim_str=dim_str,
+                _getitem_args=(x, orig_dim_str),
                 dtypes=dtypes,
                 dims=dims,
                 index_variadic=index_variadic,
